@@ -257,11 +257,34 @@ class FakeSerial:
         if not self.is_open:
             import serial
             raise serial.SerialException("port closed")
+        T = self.timeout or 0.25
+        stash = getattr(self, "_stash", None)
+        if stash is not None:
+            remaining, data = stash
+            if remaining <= T:
+                time.sleep(max(remaining, 0))
+                self._stash = None
+                return data
+            time.sleep(T)
+            self._stash = (remaining - T, data)
+            return b""
         try:
-            return self.fw.readline()
+            line = self.fw.readline()
         except OSError as e:
             import serial
             raise serial.SerialException(str(e))
+        gap = getattr(self.fw, "burst_gap", 0)
+        if line and gap and len(line) > 12:
+            # the device sends the line in two bursts `gap` seconds apart:
+            # Serial.readline() returns at the newline, or with what it has when
+            # its timeout expires first (a partial line)
+            if gap <= T:
+                time.sleep(gap)
+                return line
+            time.sleep(T)
+            self._stash = (gap - T, line[len(line) // 2:])
+            return line[:len(line) // 2]
+        return line
 
     def write(self, data):
         try:
